@@ -122,14 +122,22 @@ pub fn record(seed: u64, n: usize) -> Vec<J> {
                 let ds: Vec<f64> = (0..k).map(|_| match r.below(4) {
                     0 => f64::from_bits(r.next()),
                     1 => r.range(-1000, 1000) as f64 / 8.0,
-                    2 => *r.pick(&[0.1, 0.2, 0.3, 1e16, 1.0, -1e16, 1e-9, 3.0, f64::INFINITY, f64::NEG_INFINITY]),
+                    2 => *r.pick(&[0.1, 0.2, 0.3, 1e16, 1.0, -1e16, 1e-9, 3.0, f64::INFINITY, f64::NEG_INFINITY, 1.7e308, -1.7e308, f64::MAX, 9.1e307, 5e-324]),
                     _ => r.range(-5, 5) as f64,
                 }).filter(|x| !x.is_nan()).collect();
                 if ds.is_empty() { continue; }
                 let items: Vec<String> = ds.iter().map(|x| mv::num_src(*x)).collect();
                 let fs = forms(f, &items);
                 let obs: Vec<String> = fs.iter().map(|(_, src)| obs_bits(&s.eval(src))).collect();
-                out.push(json!({"ev":"conv","f":f,"list":obs[0],"separate":obs[1],"spread":obs[2],"src":fs[1].1}));
+                // membership: min / max / median of an odd count is one of the values
+                let member = if f == "min" || f == "max" || (f == "median" && ds.len() % 2 == 1) {
+                    if ds.iter().any(|x| mv::hex(*x) == obs[0] || (*x == 0.0 && (obs[0] == mv::hex(0.0) || obs[0] == mv::hex(-0.0)))) { "yes" } else { "no" }
+                } else { "n/a" };
+                // sum / avg with an infinity of one sign: that infinity, in every order
+                let (pinf, ninf) = (ds.iter().any(|x| *x == f64::INFINITY), ds.iter().any(|x| *x == f64::NEG_INFINITY));
+                let tame = ds.iter().all(|x| x.is_infinite() || x.abs() < 1e300);
+                let expected = if (f == "sum" || f == "avg") && (pinf != ninf) && tame { mv::hex(if pinf { f64::INFINITY } else { f64::NEG_INFINITY }) } else { "n/a".to_string() };
+                out.push(json!({"ev":"conv","f":f,"list":obs[0],"separate":obs[1],"spread":obs[2],"member":member,"expected":expected,"src":fs[1].1}));
             }
         }
         crate::ev::clear_stats();
